@@ -7,10 +7,15 @@
 (*                                                                         *)
 (* One line per run: the fault sequence and the ordered events             *)
 (*   call(k) spawned handshake_done request_written response(kind)         *)
-(*   delivered killed ret(k, reply class, own)                             *)
-(* Every event is one action of the model; the actions the log cannot see  *)
-(* (child steps, OS steps, chunk-wise pipe traffic, PTake, PHsWrite) are   *)
-(* silent and bounded by MaxSilent between two events.  A run is accepted  *)
+(*   delivered killed ret(k, reply class, own) envkill(k)                  *)
+(* `call` marks the caller entering execute (what execute then does -      *)
+(* discarding the replies of abandoned requests, sending - is silent but   *)
+(* only allowed after the mark); `ret` with class "abandoned" is the       *)
+(* caller dropping the future; `envkill` is the outside kill of the idle   *)
+(* child.  Every other event is one action of the model; the actions the   *)
+(* log cannot see (child steps, OS steps, chunk-wise pipe traffic, PTake,  *)
+(* PHsWrite, the restart after EPIPE) are silent and bounded by MaxSilent  *)
+(* between two events.  A run is accepted  *)
 (* iff some behaviour of Sandbox.tla (repaired code) produces exactly its  *)
 (* event sequence with exactly its replies; then the next line starts from *)
 (* a fresh initial state.  The first line no behaviour can finish is       *)
@@ -21,38 +26,41 @@ EXTENDS TraceLib, FiniteSets
 VARIABLES plan, gaps, cpc, next, reqCh, respCh, taskAlive,
           ppc, cur, pw, pr, resp, brk,
           gen, cst, creq, cfr, cw, cr, expired,
-          inPipe, outPipe, got,
-          l, p, sil
+          inPipe, outPipe, got, out, resent,
+          l, p, sil, called
 
 MaxSilent == 12
 
-S == INSTANCE Sandbox WITH MaxReq <- 8, Kinds <- {"ok", "panic", "overrun", "oom", "exit", "big"},
+S == INSTANCE Sandbox WITH MaxReq <- 8,
+                           Kinds <- {"ok", "slow", "panic", "overrun", "oom", "exit", "big", "abandon", "abover", "kill"},
                            GapKinds <- {0}, UniformGaps <- FALSE, PipeCap <- 2, BigChunks <- 3,
-                           BreakOutAfterPanic <- TRUE
+                           BreakOutAfterPanic <- TRUE, DrainAbandoned <- TRUE, RespawnOnEpipe <- TRUE
 
-svars == S!vars
+svars == <<plan, gaps, cpc, next, out, reqCh, respCh, taskAlive, ppc, cur, pw, pr, resp, brk, resent,
+           gen, cst, creq, cfr, cw, cr, expired, inPipe, outPipe, got>>
 
 PlanOf(i) == Rec[i].plan
 NoGaps(i) == [k \in 1..Len(Rec[i].plan) |-> 0]   \* the real gap only removes behaviours; none is assumed
 Events(i) == Rec[i].events
 
-TInit == /\ l = 1 /\ p = 1 /\ sil = 0
+TInit == /\ l = 1 /\ p = 1 /\ sil = 0 /\ called = 0
          /\ IF NRec >= 1 THEN S!InitWith(PlanOf(1), NoGaps(1)) ELSE S!InitWith(<<"ok">>, <<0>>)
 
 Silent ==
   /\ sil < MaxSilent
-  /\ \/ S!PHsWrite \/ S!PTake \/ S!PWriteMore \/ S!PWriteFail \/ S!PReadMore
+  /\ \/ S!PHsWrite \/ S!PTake \/ S!PWriteMore \/ S!PWriteGone \/ S!PWriteFail \/ S!PReadMore
      \/ S!Child
+     \/ called = next /\ (S!CDrain \/ S!CSend)      \* inside execute, after the `call` mark
   /\ sil' = sil + 1
-  /\ UNCHANGED <<l, p>>
+  /\ UNCHANGED <<l, p, called>>
 
 ModelClass(c) == CASE c = "ok" -> "Ok" [] c = "panic" -> "Panic" [] c = "timeout" -> "Timeout"
                    [] c = "crashed" -> "Crashed" [] c = "send_failed" -> "SendFailed"
-                   [] c = "recv_failed" -> "RecvFailed" [] OTHER -> "Unknown"
+                   [] c = "recv_failed" -> "RecvFailed" [] c = "abandoned" -> "Abandoned" [] OTHER -> "Unknown"
 
 Matches(ev) ==
-  CASE ev.e = "call"            -> IF taskAlive THEN S!CSend /\ next = ev.v
-                                   ELSE cpc = "idle" /\ next = ev.v /\ UNCHANGED svars
+  CASE ev.e = "call"            -> cpc = "idle" /\ next = ev.v /\ called' = ev.v /\ UNCHANGED svars
+    [] ev.e = "envkill"         -> next = ev.v /\ S!CKill
     [] ev.e = "spawned"         -> S!PSpawn
     [] ev.e = "handshake_done"  -> S!PHsRead
     [] ev.e = "request_written" -> S!PWriteLast
@@ -63,8 +71,8 @@ Matches(ev) ==
                                      [] OTHER    -> FALSE
     [] ev.e = "delivered"       -> S!PDeliver
     [] ev.e = "killed"          -> S!PKill
-    [] ev.e = "ret"             -> /\ next = ev.v
-                                   /\ S!CSendFail \/ S!CRecv \/ S!CRecvFail
+    [] ev.e = "ret"             -> /\ next = ev.v /\ called = ev.v
+                                   /\ S!CSendFail \/ S!CRecv \/ S!CRecvFail \/ S!CDrainFail \/ S!CAbandon \/ S!CAbandonEarly
                                    /\ got'[ev.v].class = ModelClass(ev.c)
                                    /\ (ev.own = 1) => got'[ev.v].of = ev.v
                                    /\ (ev.own = 0 /\ ev.c \in {"ok", "panic"}) => got'[ev.v].of # ev.v
@@ -73,24 +81,25 @@ Matches(ev) ==
 Consume ==
   /\ l <= NRec /\ p <= Len(Events(l))
   /\ Matches(Events(l)[p])
+  /\ (Events(l)[p].e # "call" => called' = called)
   /\ p' = p + 1 /\ sil' = 0 /\ l' = l
 
 \* the whole run is explained: start the next line from a fresh initial state
 NextRun ==
   /\ l <= NRec /\ p > Len(Events(l))
-  /\ l' = l + 1 /\ p' = 1 /\ sil' = 0
+  /\ l' = l + 1 /\ p' = 1 /\ sil' = 0 /\ called' = 0
   /\ LET np == IF l + 1 <= NRec THEN PlanOf(l + 1) ELSE <<"ok">>
          ng == [k \in 1..Len(np) |-> 0] IN
        /\ plan' = np /\ gaps' = ng
-       /\ cpc' = "idle" /\ next' = 1
+       /\ cpc' = "idle" /\ next' = 1 /\ out' = 0
        /\ reqCh' = 0 /\ respCh' = S!NoResp /\ taskAlive' = TRUE
-       /\ ppc' = "spawn" /\ cur' = 0 /\ pw' = 0 /\ pr' = 0 /\ resp' = S!NoResp /\ brk' = FALSE
+       /\ ppc' = "spawn" /\ cur' = 0 /\ pw' = 0 /\ pr' = 0 /\ resp' = S!NoResp /\ brk' = FALSE /\ resent' = FALSE
        /\ gen' = 0 /\ cst' = "none" /\ creq' = 0 /\ cfr' = S!NoChunk /\ cw' = 0 /\ cr' = 0 /\ expired' = FALSE
        /\ inPipe' = <<>> /\ outPipe' = <<>>
        /\ got' = <<>>
 
 TNext == Silent \/ Consume \/ NextRun
-TSpec == TInit /\ [][TNext]_<<svars, l, p, sil>>
+TSpec == TInit /\ [][TNext]_<<svars, l, p, sil, called>>
 
 Reached == Mark(l)
 =============================================================================
